@@ -185,11 +185,25 @@ def main():
         sys.exit(1 if out.get("failures") else 0)
     if cmd == "replay-stdin":
         out = []
+        import signal
+
+        class _Slow(Exception):
+            pass
+
+        def _alarm(*_a):
+            raise _Slow()
+
+        signal.signal(signal.SIGALRM, _alarm)
         for w in json.load(sys.stdin):
             try:
+                signal.alarm(20)  # util.factor is trial division: a witness with a huge constant can take minutes
                 out.append(replay_witness(w))
+            except _Slow:
+                out.append({"realised": False, "reason": "native replay exceeded 20 s"})
             except Exception as e:  # noqa: BLE001
                 out.append({"realised": False, "reason": f"{type(e).__name__}: {e}"})
+            finally:
+                signal.alarm(0)
         print(json.dumps(out, default=str))
         return
     if cmd == "text":
